@@ -28,3 +28,11 @@ func (e *engine) verifClose() error { return nil }
 func verifYield(string) {}
 
 func verifKeySeed(uint64, uint64, uint64) (int64, bool) { return 0, false }
+
+func (nh *NodeHost) verifForEachShard(func(uint64, *node) bool) uint64 { return 0 }
+
+func verifSortNodes([]*node) {}
+
+func verifOffloadMissing(nodes map[uint64]*node, _ map[uint64]*node) map[uint64]*node {
+	return nodes
+}
